@@ -1,0 +1,69 @@
+// SPDX-License-Identifier: GPL-3.0-or-later
+/*
+ * Verification hook: enumerable interrupt points.
+ *
+ * Only active when compiled with -DINOVESA_INOVESA_VERIF (the project's own
+ * CMake build never defines it); otherwise VERIF_POINT expands to nothing.
+ *
+ * VERIF_POINT("label")
+ *   - appends the label to the file named by $INOVESA_VERIF_TRACE (if set),
+ *   - raises SIGINT when the running point counter (starting at 0) equals
+ *     $INOVESA_VERIF_SIGINT_AT, and also at every later point
+ *     if $INOVESA_VERIF_SIGINT_REPEAT is set,
+ *   - increments the counter.
+ */
+
+#ifndef VERIFHOOKS_HPP
+#define VERIFHOOKS_HPP
+
+#ifdef INOVESA_INOVESA_VERIF
+
+#include <csignal>
+#include <cstdio>
+#include <cstdlib>
+
+namespace vfps
+{
+namespace verif
+{
+
+inline void point(const char* label)
+{
+    static long counter = 0;
+    static long sigint_at = -1;
+    static bool repeat = false;
+    static std::FILE* trace = nullptr;
+    static bool initialized = false;
+    if (!initialized) {
+        initialized = true;
+        if (const char* at = std::getenv("INOVESA_VERIF_SIGINT_AT")) {
+            sigint_at = std::atol(at);
+        }
+        repeat = (std::getenv("INOVESA_VERIF_SIGINT_REPEAT") != nullptr);
+        if (const char* tf = std::getenv("INOVESA_VERIF_TRACE")) {
+            trace = std::fopen(tf,"w");
+        }
+    }
+    if (trace != nullptr) {
+        std::fprintf(trace,"%s\n",label);
+        std::fflush(trace);
+    }
+    if (sigint_at >= 0
+        && (counter == sigint_at || (repeat && counter > sigint_at))) {
+        std::raise(SIGINT);
+    }
+    counter++;
+}
+
+} // namespace verif
+} // namespace vfps
+
+#define VERIF_POINT(label) ::vfps::verif::point(label)
+
+#else // INOVESA_INOVESA_VERIF
+
+#define VERIF_POINT(label)
+
+#endif // INOVESA_INOVESA_VERIF
+
+#endif // VERIFHOOKS_HPP
